@@ -104,13 +104,22 @@ def run(ck):
     # ---- foreign point format: refused, file untouched
     for _ in range(30 if q else 400):
         minor, fmt = ck.rng.choice(fio.PAIRS)
-        las = fio.make_las(ck.rng, minor, fmt, ck.rng.choice([0, 3]), evlrs=fio.rand_vlrs(ck.rng, True) if minor >= 4 else None)
+        variant = ck.rng.choice(["other_id", "same_id_extra_dims", "same_id_extra_type", "one_respect", "one_respect"])
+        mine, theirs, xvariant = fio.foreign_extra_dims(ck.rng) if variant == "one_respect" else ((), (), None)
+        las = fio.make_las(ck.rng, minor, fmt, ck.rng.choice([0, 3]), mine, evlrs=fio.rand_vlrs(ck.rng, True) if minor >= 4 else None)
         buf = io.BytesIO()
         las.write(buf)
         data = buf.getvalue()
-        variant = ck.rng.choice(["other_id", "same_id_extra_dims", "same_id_extra_type"])
+        if variant == "one_respect":
+            variant = xvariant
         ck.count("foreign:" + variant)
-        if variant == "other_id":
+        if xvariant is not None:
+            # same id, extra dimensions that differ in one respect only (scale, offset, name, element type of equal width, one more, one less)
+            ofmt = fmt
+            opf = laspy.PointFormat(fmt)
+            for p_ in theirs:
+                opf.add_extra_dimension(p_)
+        elif variant == "other_id":
             ofmt = ck.rng.choice([x for x in range(11) if x != fmt])
             opf = laspy.PointFormat(ofmt)
         else:
@@ -137,6 +146,7 @@ def run(ck):
             ck.fail("a refused append changed the file", inp)
     rescale_layer(ck, 60 if q else 1500)
     refused_inside_session_layer(ck, 20 if q else 400)
+    refused_rescale_layer(ck, 12 if q else 240)
     encoding_errors_layer(ck, 8 if q else 100)
     compressed_layer(ck, 25 if q else 500)
     out = ck.driver(lines)
@@ -273,6 +283,64 @@ def refused_inside_session_layer(ck, n_cases):
                     f"what was accepted (first difference at byte {k0}; sizes {len(a)}/{len(b)})", inp)
 
 
+def refused_rescale_layer(ck, n_cases):
+    """a with-session in which a scale-aware chunk cannot be represented in the file's scaling (OverflowError): the chunk is refused, the caller's
+    record is as it was, and the file left by the session is the one-shot file of the original and the chunks accepted before - in particular
+    an empty original stays an empty cloud with zero extrema"""
+    import laspy
+    for ci in range(n_cases):
+        minor, fmt = ck.rng.choice(fio.PAIRS)
+        n0 = [0, 0, 2][ci % 3]
+        k_good = [0, 1, 0, 2][ci % 4]
+        fs = [ck.rng.choice([1e-6, 1e-5]) for _ in range(3)]
+        fo = [0.0, 0.0, 0.0]
+        evlrs = fio.rand_vlrs(ck.rng, True, 2) if minor >= 4 and ck.rng.random() < 0.5 else None
+        las = fio.make_las(ck.rng, minor, fmt, n0, scales=fs, offsets=fo, evlrs=evlrs)
+        size = las.header.point_format.size
+        good = [fio.raw_records(ck.rng, size, ck.rng.choice([1, 3])) for _ in range(k_good)]
+        bad_axis = ci % 3
+        rec = laspy.ScaleAwarePointRecord.zeros(2, point_format=las.header.point_format, scales=np.array([1.0, 1.0, 1.0]), offsets=np.array([0.0, 0.0, 0.0]))
+        for ax, d in enumerate("XYZ"):
+            rec.array[d] = np.array([10**6, 2 * 10**6] if ax == bad_axis else [1, 2], dtype="i4")   # 1e6 / 1e-6 does not fit in 32 bits
+        snap = (rec.array.tobytes(), tuple(rec.scales.tolist()), tuple(rec.offsets.tolist()))
+        inp = {"kind": "refused_rescale", "minor": minor, "fmt": fmt, "n0": n0, "accepted": [len(g) // size for g in good], "file_scales": fs,
+               "axis": bad_axis, "evlrs": None if evlrs is None else len(evlrs)}
+        ck.case(("refused_rescale", minor, fmt, n0, tuple(inp["accepted"]), tuple(fs), bad_axis, las.points.array.tobytes()), nontrivial=True)
+        ck.count("refused_rescale")
+        b0 = io.BytesIO()
+        las.write(b0)
+        buf = io.BytesIO(b0.getvalue())
+        raised = None
+        try:
+            with laspy.open(buf, mode="a", closefd=False) as ap:
+                for g in good:
+                    ap.append_points(rec_of(las, g))
+                ap.append_points(rec)
+        except OverflowError:
+            raised = "OverflowError"
+        except Exception as e:
+            ck.fail(f"a chunk that does not fit the file's scaling raised {type(e).__name__}: {e} (OverflowError expected)", inp)
+            continue
+        if raised is None:
+            ck.fail("a chunk whose coordinates do not fit in 32 bits under the file's scaling was accepted (wrapped)", inp)
+            continue
+        if (rec.array.tobytes(), tuple(rec.scales.tolist()), tuple(rec.offsets.tolist())) != snap:
+            ck.fail("a refused append modified the caller's records", inp)
+        whole = fio.make_las(ck.rng, minor, fmt, 0, raw=las.points.array.tobytes() + b"".join(good), scales=fs, offsets=fo, evlrs=evlrs)
+        ref = io.BytesIO()
+        whole.write(ref)
+        if buf.getvalue() != ref.getvalue():
+            a, b = buf.getvalue(), ref.getvalue()
+            k0 = next((i for i in range(min(len(a), len(b))) if a[i] != b[i]), min(len(a), len(b)))
+            try:
+                hb = laspy.read(io.BytesIO(a)).header
+                desc = f"header: {hb.point_count} points, mins {hb.mins.tolist()}, maxs {hb.maxs.tolist()}"
+            except Exception as e:
+                desc = f"reading it raises {type(e).__name__}"
+            ck.fail(f"session on a {n0}-point file left by the refusal (OverflowError) of a chunk after {inp['accepted']} accepted points: the file differs "
+                    f"from the one-shot file of what was accepted (first difference at byte {k0}; {desc})", inp)
+
+
 def rescale_layer(ck, n_cases):
     """scale-aware records whose scaling differs from the file's keep their real-world coordinates"""
     import laspy
@@ -289,9 +357,22 @@ def rescale_layer(ck, n_cases):
             fo = [ck.rng.choice([0.0, 1000.0, -250.5]) for _ in range(3)]
             rs = [ck.rng.choice([0.01, 0.002, 0.05]) for _ in range(3)]
             ro = [ck.rng.choice([0.0, 10.0, -3.0]) for _ in range(3)]
-        variant = ck.rng.choice(["same", "both", "both", "only_scales", "only_offsets", "one_axis"])
+        variant = ck.rng.choice(["same", "both", "both", "only_scales", "only_offsets", "one_axis", "nearby_offsets", "nearby_scales"])
         same = variant == "same"
-        if same:
+        big = False
+        if variant == "nearby_offsets":
+            # large offsets that differ by less than a millionth of their size - and by many steps
+            dy = False
+            fs = rs = [0.01, 0.01, 0.001]
+            fo = [500000.0, 4000000.0, 1000.0]
+            ro = [500000.5, 4000000.25, 1000.0]
+        elif variant == "nearby_scales":
+            # scales that differ in the sixth digit: many steps for large stored integers
+            dy = False
+            fs, fo, ro = [0.01, 0.001, 0.01], [0.0, 0.0, 0.0], [0.0, 0.0, 0.0]
+            rs = [0.01 * (1 + 4e-6), 0.001 * (1 - 4e-6), 0.01]
+            big = True
+        elif same:
             rs, ro = fs, fo
         elif variant == "only_scales":
             ro = fo
@@ -311,7 +392,8 @@ def rescale_layer(ck, n_cases):
         m = ck.rng.choice([1, 3])
         rec = laspy.ScaleAwarePointRecord.zeros(m, point_format=las.header.point_format, scales=np.array(rs), offsets=np.array(ro))
         for d in "XYZ":
-            rec.array[d] = np.array([ck.rng.randrange(-10**4, 10**4) for _ in range(m)], dtype="i4")
+            rec.array[d] = np.array([ck.rng.randrange(-10**4, 10**4) if not big else ck.rng.choice([-1, 1]) * ck.rng.randrange(10**8, 2 * 10**8)
+                                     for _ in range(m)], dtype="i4")
         want = [np.array(rec.x), np.array(rec.y), np.array(rec.z)]
         snap = (rec.array.tobytes(), tuple(rec.scales.tolist()), tuple(rec.offsets.tolist()))
         inp = {"kind": "rescale", "minor": minor, "fmt": fmt, "file_scales": fs, "file_offsets": fo, "rec_scales": rs, "rec_offsets": ro,
